@@ -2,7 +2,7 @@
    stay the extracted inductive datatypes. Output lands in the directory coqc runs in. *)
 Require Extraction.
 Require Import ExtrOcamlBasic.
-From PM Require Import Base.Bytes Num.IntModel Num.DecModel Num.CoinsModel Store.KV Store.RootMulti App.Model.
+From PM Require Import Base.Bytes Num.IntModel Num.DecModel Num.CoinsModel Store.KV Store.RootMulti Crypto.KeysModel App.Model.
 Extraction Language OCaml.
 Extraction "model.ml"
   Coq.ZArith.BinInt.Z.add Coq.ZArith.BinInt.Z.mul Coq.ZArith.BinInt.Z.sub Coq.ZArith.BinInt.Z.opp
@@ -17,6 +17,7 @@ Extraction "model.ml"
   dec_truncate_dec dec_ceil dec_from_int dec_chk
   spec_quo spec_quo_round_up spec_quo_truncate spec_mul in_uint_b
   safe_add safe_sub coins_sub coins_valid amount_of is_all_gte is_all_gt is_any_gte coins_equal coins_is_zero new_coins
+  verify kstep
   ms_init commit_in_order reopen load_ms ms_set ms_delete ms_tset ms_query ms_set_pruning
   init_chain begin_block end_block deliver_tx k_award k_burn bank_mint set_bank rank_key time_key be_bytes
   aset s_get s_has s_set s_delete s_iter s_iter_all c_write at_depth it_valid it_key it_value it_next consume
